@@ -296,7 +296,10 @@ class Interp:
                                                                  e.func.id in self.funcs)):
             return U
         args = []
-        for a in e.args:
+        is_isinst = isinstance(e.func, ast.Name) and e.func.id == "isinstance" and "isinstance" not in self.env and len(e.args) == 2
+        for k_, a in enumerate(e.args):
+            if is_isinst and k_ == 1:
+                continue            # a class expression: read syntactically below
             if isinstance(a, ast.Starred):
                 v = self.ev(a.value)
                 if v is U:
@@ -360,6 +363,12 @@ class Interp:
                       "enumerate": lambda *a: list(enumerate(*a)), "zip": lambda *a: list(zip(*a)), "range": lambda *a: list(range(*a)),
                       "int": int, "float": float, "str": str, "bool": bool, "abs": abs, "min": min, "max": max, "sum": sum,
                       "any": any, "all": all, "round": round, "divmod": divmod, "frozenset": frozenset}
+            if fn == "hasattr" and len(args) == 2 and isinstance(args[0], NS) and isinstance(args[1], str):
+                return args[1] in args[0] and args[0][args[1]] is not U
+            if fn == "isinstance" and len(e.args) == 2 and args and isinstance(args[0], NS) and "__cls__" in args[0]:
+                c = e.args[1]
+                names_ = [x.id if isinstance(x, ast.Name) else getattr(x, "attr", None) for x in (c.elts if isinstance(c, ast.Tuple) else [c])]
+                return any(n_ in args[0]["__cls__"] for n_ in names_)
             if fn == "next" and args and isinstance(args[0], Gen):
                 if args[0]:
                     return args[0].pop(0)
